@@ -301,6 +301,7 @@ pub fn child_main(a: ChildArgs) -> i32 {
             sched_seed: 0,
             opts_per_task: false,
             stack_kib: vec![],
+            handler_shared: false,
             tasks: vec![t.clone()],
         };
         plan.tasks[0].crash_at = None;
@@ -355,6 +356,7 @@ pub fn child_main(a: ChildArgs) -> i32 {
                 format!("comments_store={:?}", plan.store),
                 format!("options={}", if plan.opts_per_task { "deserialised per file and dropped" } else { "deserialised once, cloned" }),
                 format!("worker_stacks={}", if plan.stack_kib.is_empty() { "64 MiB".to_string() } else if plan.stack_kib.iter().any(|k| *k <= 2048) { "mixed, some 2 MiB".to_string() } else { "mixed, 8-64 MiB".to_string() }),
+                format!("diagnostics_handler={}", if plan.handler_shared { "one for all files" } else { "one per file" }),
                 format!("strategy={}", match &plan.strategy { Strategy::Random { .. } => "random", Strategy::Pct { .. } => "pct", Strategy::Script => "scripted / canonical" }),
                 format!("tasks={}", match plan.tasks.len() { 0..=3 => "1-3", 4..=8 => "4-8", _ => "9+" }),
                 format!("noise={}", if plan.tasks.iter().any(|t| !t.noise.is_zero()) { "some" } else { "none" }),
